@@ -275,6 +275,61 @@ theorem ensureEqualDims_iff (s0 : Shape) (rest : List Shape) :
   · intro hall s hs
     rw [hall s hs]; exact ⟨Nat.le_refl _, List.take_length⟩
 
+/-- **No input passes with a mismatch** — one statement for both forms of the `dim` argument.  Let the compared
+    axes be `dimsOf s0 dim` (all axes of the first array for `dim=None`, the single axis `d` for `dim=d`).  The
+    call is accepted if and only if along EVERY compared axis the first array has a length and EVERY other array
+    has that same length; so whenever some array differs from the first along some compared axis (or lacks the
+    axis) the call raises — there is no list of arrays, no position of the odd one out and no `dim` for which a
+    mismatch is let through. -/
+theorem ensureEqualDims_rejects_every_mismatch (s0 : Shape) (rest : List Shape) (dim : Option Nat) :
+    (ensureEqualDims (s0 :: rest) dim = .ok () ↔
+      ∀ ax ∈ dimsOf s0 dim, ∃ v, s0[ax]? = some v ∧ ∀ s ∈ rest, s[ax]? = some v) ∧
+    (∀ s ∈ rest, ∀ ax ∈ dimsOf s0 dim, s[ax]? ≠ s0[ax]? →
+      ∃ e, ensureEqualDims (s0 :: rest) dim = .error e) := by
+  have hiff : ensureEqualDims (s0 :: rest) dim = .ok () ↔
+      ∀ ax ∈ dimsOf s0 dim, ∃ v, s0[ax]? = some v ∧ ∀ s ∈ rest, s[ax]? = some v := by
+    cases dim with
+    | some d =>
+      rw [(ensureEqualDims_axis_iff s0 rest d).1]
+      simp [dimsOf]
+    | none =>
+      rw [(ensureEqualDims_iff s0 rest).1]
+      simp only [dimsOf, List.mem_range]
+      constructor
+      · intro h ax hax
+        refine ⟨s0[ax], List.getElem?_eq_getElem hax, fun s hs => ?_⟩
+        obtain ⟨hle, htake⟩ := h s hs
+        have : (s.take s0.length)[ax]? = s0[ax]? := by rw [htake]
+        rw [List.getElem?_take_of_lt hax] at this
+        rw [this, List.getElem?_eq_getElem hax]
+      · intro h s hs
+        have hle : s0.length ≤ s.length := by
+          cases hl : s0.length with
+          | zero => omega
+          | succ n =>
+            obtain ⟨v, _, hv⟩ := h n (by omega)
+            have := hv s hs
+            have hlt : n < s.length := by
+              apply Classical.byContradiction
+              intro hc
+              rw [List.getElem?_eq_none (by omega)] at this
+              cases this
+            omega
+        refine ⟨hle, ?_⟩
+        apply List.ext_getElem?
+        intro i
+        by_cases hi : i < s0.length
+        · obtain ⟨v, hv0, hv⟩ := h i hi
+          rw [List.getElem?_take_of_lt hi, hv s hs, hv0]
+        · rw [List.getElem?_eq_none (by simp; omega), List.getElem?_eq_none (by omega)]
+  refine ⟨hiff, fun s hs ax hax hne => ?_⟩
+  cases hr : ensureEqualDims (s0 :: rest) dim with
+  | error e => exact ⟨e, rfl⟩
+  | ok u =>
+    exfalso
+    obtain ⟨v, hv0, hv⟩ := hiff.mp hr ax hax
+    exact hne (by rw [hv s hs, hv0])
+
 /-- Two arrays, `dim=None`: the complete case analysis.  The second shape is only looked at along the
     axes of the FIRST one: too few axes → IndexError (from `np.array(x.shape)[dim]`), enough axes but a
     different leading part → ValueError, otherwise accepted — whatever further axes it has. -/
@@ -404,5 +459,12 @@ theorem ensure_equal_dims_empty_list :
 
 example : ComposeShapes.toExcept (Spectra.equalDimsAt [[7, 2], [7, 2, 3], [6, 2, 3]] 0) = .error .valueError := rfl
 example : ComposeShapes.toExcept (Spectra.equalDimsAll [[7, 2], [7]]) = .error .indexError := rfl
+
+-- `ensureEqualDims_rejects_every_mismatch`: the odd one out in the LAST position, along the last compared axis, is caught
+-- (dim=None and dim=1), and a list without a mismatch passes
+example : ensureEqualDims [[7, 2], [7, 2], [7, 3]] none = .error .valueError := rfl
+example : ensureEqualDims [[7, 2], [7, 2], [7, 3]] (some 1) = .error .valueError := rfl
+example : ensureEqualDims [[7, 2], [7, 2], [7, 2]] none = .ok () := rfl
+example : ([7, 3] : Shape)[1]? ≠ ([7, 2] : Shape)[1]? := by decide
 
 end C19
